@@ -2,6 +2,7 @@ import FxVerif.Model.C18
 import FxVerif.Proofs.C18P
 import FxVerif.Proofs.C18T
 import FxVerif.Proofs.C18R4
+import FxVerif.Proofs.C18E
 /-!
 # C18 — a tolerated failed sub-step leaves none of its own partial effects
 
@@ -707,6 +708,106 @@ theorem callback_never_returns_nil :
 
 end Round4
 
+/-! ## round 5: from the interpreter's outcome to the failure test of the boundary — every revert payload
+
+`Model/C18P` takes "did the contract call fail" as an input of the leaf `k.evmKeeper.CallEVM` (`Env.ok`, `Env.evm`).
+Between the interpreter and that input lie `ApplyMessage` (`VmError = vmErr.Error()`), the helper
+`x/evm/keeper.Keeper.CallEVM` / `CallEVMWithoutGas`, and `MsgEthereumTxResponse.Failed()`.  `Gen/C18E.lean` regenerates
+the statements of the two helpers that write the response or leave, the body of `Failed()`, the texts of the
+interpreter's errors and the selectors `abi.UnpackRevert` decodes; `Model/C18E` interprets them.  A helper that rewrites
+`VmError` (say with the decoded revert reason, which is EMPTY for `revert("")`) makes a failed call pass the boundary
+as a success: these theorems then no longer compile. -/
+
+section Round5
+open FxVerif.Model.C18P FxVerif.Proofs.C18P FxVerif.Model.C18E FxVerif.Proofs.C18E
+open FxVerif.Gen.C18E (callEVMPost callEVMWithoutGasPost vmErrorTexts vmErrorFormats)
+
+/-- every error text of the interpreter is non-empty (regenerated tables of go-ethereum `core/vm/errors.go`), so
+`Failed()` = `len(VmError) > 0` cannot miss an error the interpreter reported -/
+theorem vm_error_texts_nonempty :
+    (∀ p ∈ vmErrorTexts, p.2 ≠ "") ∧ (∀ p ∈ vmErrorFormats, p.2 ≠ "") ∧ FxVerif.Gen.C18E.revertText ≠ "" :=
+  ⟨texts_nonempty, formats_nonempty, revertText_nonempty⟩
+
+/-- **where the response comes from** (regenerated from the ethermint fork): `VmError` is the text of the interpreter's
+error when there is one and is assigned nowhere else (so `""` otherwise), `Ret` is the interpreter's return data, and the
+error is the one of `evm.Create` / `evm.Call` — the shape `Model/C18E.respOf` models -/
+theorem apply_message_response_is_the_interpreters :
+    FxVerif.Gen.C18E.applyMessageVmErrorExpr = "vmError" ∧ FxVerif.Gen.C18E.applyMessageRetExpr = "ret" ∧
+    FxVerif.Gen.C18E.applyMessageVmErrorAssigns = [("vmErr != nil", "vmErr.Error()")] ∧
+    FxVerif.Gen.C18E.applyMessageVmErrSources = ["evm.Create", "evm.Call"] := by decide
+
+/-- **any helper, by induction over its statement list**: no write of the response and a return on every path ⇒ the
+caller gets exactly the response `ApplyMessage` built, or an error — for every uninterpreted condition and every
+outcome of the interpreter -/
+theorem helper_without_response_write_is_faithful (cond : String → Bool) (p : FxVerif.Gen.C18E.RStmt) (o : Outcome)
+    (hn : noWrite p = true) (he : ends p = true) :
+    (handBack cond p o).2 = false ∧ ∀ r, (handBack cond p o).1 = some r → r = respOf o :=
+  handBack_faithful cond p o hn he
+
+/-- **`CallEVM` hands back the interpreter's response untouched** (the regenerated statement list has no write) -/
+theorem call_evm_hands_back_interpreter_response (cond : String → Bool) (o : Outcome) :
+    (callEVM cond o).2 = false ∧ ∀ r, (callEVM cond o).1 = some r → r = respOf o :=
+  callEVM_faithful cond o
+
+/-- **a failed interpreter run is visible at the boundary, whatever the revert payload** — no return data, `Error("")`,
+`Error(reason)`, `Panic(uint)`, a custom error, undecodable data — and whatever other VM error (every constant and
+every struct error of the regenerated tables): `CallEVM` returns an error or `Failed()` holds of the response -/
+theorem call_evm_failure_visible_for_every_payload (cond : String → Bool) (o : Outcome) (hwf : o.wf = true) (hne : o ≠ .success) :
+    envOk cond o = false ∨ envKind cond o ≠ .ok :=
+  callEVM_failure_visible cond o hwf hne
+
+/-- and a successful run is never taken for a failure -/
+theorem call_evm_success_not_reported_failed (cond : String → Bool) : envKind cond .success = .ok :=
+  callEVM_success_invisible cond
+
+/-- **gov `MsgCallContract`**: `CallEVMWithoutGas` returns an error exactly when the interpreter did not succeed -/
+theorem call_evm_without_gas_error_iff_not_success (cond : String → Bool) (o : Outcome) (hwf : o.wf = true) :
+    (callEVMWithoutGas cond o).2 = false ∧ ((callEVMWithoutGas cond o).1 = none ↔ o ≠ .success) :=
+  callEVMWithoutGas_error_iff cond o hwf
+
+/-- **inbound bridge call, the interpreter's outcome quantified**: whatever the contract does other than succeed — any
+revert payload, any VM error — with the inputs of the leaf computed THROUGH the regenerated helper, the state is the
+designated outcome (claim consumed, bridge account, refund record) -/
+theorem bridge_call_in_any_vm_outcome (env : Env) (hp : NoPanic env) (cond : String → Bool) (o : Outcome)
+    (hwf : o.wf = true) (hne : o ≠ .success)
+    (hok : env.ok "k.evmKeeper.CallEVM" 0 = envOk cond o) (hkind : env.evm "k.evmKeeper.CallEVM" 0 = envKind cond o)
+    (hfound : env.cond "ExecuteClaim: found" 0 = true)
+    (ht1 : env.cond "ExecuteClaim: externalClaim.(type) is *types.MsgSendToFxClaim" 0 = false)
+    (ht2 : env.cond "ExecuteClaim: externalClaim.(type) is *types.MsgBridgeCallClaim" 0 = true)
+    (hmod : env.ok "k.ak.GetAccount" 0 = true ∨ env.cond "Keeper.BridgeCallHandler: ok" 0 = false)
+    (hs : env.ok "k.bankKeeper.SendCoins" 0 = true) (ha : env.ok "k.AddOutgoingBridgeCall" 0 = true)
+    (hcred : BciAll1 env (env.iters 1 0))
+    (hc : env.cond "Keeper.BridgeCallEvm: k.evmKeeper.IsContract(ctx, to)" 0 = true) :
+    (run env executeClaimProg).1 = .ret true ∧ (run env executeClaimProg).2.outer = bciDesignated env := by
+  refine bridge_call_in_vm_error_of_any_kind env hp hfound ht1 ht2 hmod hs ha hcred hc ?_
+  rcases callEVM_failure_visible cond o hwf hne with h | h
+  · left; rw [hok]; exact h
+  · right; rw [hkind]; exact h
+
+/-- **IBC follow-up call, the interpreter's outcome quantified** -/
+theorem ibc_recv_any_vm_outcome (env : Env) (hp : NoPanic env) (hr : ibcReached env) (cond : String → Bool) (o : Outcome)
+    (hwf : o.wf = true) (hne : o ≠ .success)
+    (hok : env.ok "k.evmKeeper.CallEVM" 0 = envOk cond o) (hkind : env.evm "k.evmKeeper.CallEVM" 0 = envKind cond o)
+    (hsync' : env.cond "RecvPacket: ack == nil" 0 = false)
+    (hw : env.ok "k.ChannelKeeper.WriteAcknowledgement" 0 = true)
+    (hmemo : env.cond "Keeper.OnRecvPacket: len(data.Memo) > 0" 0 = true) (hjson : env.ok "k.cdc.UnmarshalInterfaceJSON" 0 = true) :
+    (run env recvPacketProg).1 = .ret true ∧ (run env recvPacketProg).2.outer = ibcDesignated := by
+  refine ibc_recv_vm_error_of_any_kind env hp hr hsync' hw hmemo hjson ?_
+  rcases callEVM_failure_visible cond o hwf hne with h | h
+  · left; rw [hok]; exact h
+  · right; rw [hkind]; exact h
+
+/-- **gov, a `MsgCallContract` at ANY message index whose contract does anything but succeed**: the proposal fails -/
+theorem proposal_call_contract_any_vm_outcome (env : Env) (p k : Nat) (hk : k < env.iters 2 p) (cond : String → Bool)
+    (o : Outcome) (hwf : o.wf = true) (hne : o ≠ .success)
+    (hh : env.ok "handler" (p * env.stride + k) = (callEVMWithoutGas cond o).1.isSome) :
+    ¬ GovAllOkP env p (env.iters 2 p) := by
+  refine proposal_failure_at_any_index env p k hk (Or.inl ?_)
+  have := ((callEVMWithoutGas_error_iff cond o hwf).2).mpr hne
+  rw [hh, this]; rfl
+
+end Round5
+
 /-! ## non-vacuity -/
 
 section ProgExamples
@@ -779,6 +880,24 @@ example : (run (panicAt (failAt (failAt envOk "handler" 0) "handler" 11) "handle
 example : (run (failAt (failAt (vmErr envTx "k.evmKeeper.CallEVM" .outOfGas) "k.DeletePendingExecuteClaim" 0) "k.CreateBridgeAccount" 0) executeClaimTxProg).2.outer
     = bciDesignated envTx := by decide
 end Round4Examples
+
+section Round5Examples
+open FxVerif.Model.C18P FxVerif.Proofs.C18P FxVerif.Model.C18E FxVerif.Proofs.C18E
+-- every payload shape is a well-formed non-success outcome; the empty reason is among them
+example : (Outcome.reverted (.errorString "")).wf = true ∧ Outcome.reverted (.errorString "") ≠ .success := by decide
+example : (Outcome.vmConst "ErrOutOfGas" "out of gas").wf = true := by decide
+example : (Outcome.vmFmt "ErrInvalidOpCode" "invalid opcode: " "INVALID").wf = true := by decide
+example : envKind (fun _ => false) (.reverted (.errorString "")) = .revert := by decide
+example : envKind (fun _ => false) (.reverted (.custom 7)) = .revert ∧ envOk (fun _ => true) (.reverted .malformed) = false := by decide
+example : (callEVMWithoutGas (fun _ => false) (.reverted (.errorString ""))).1 = none := by decide
+example : (callEVMWithoutGas (fun _ => false) .success).1 = some ⟨"", .none⟩ := by decide
+-- a helper that DOES write the response is not covered by the induction (its hypotheses are decidable and false)
+example : noWrite (.ite (.vmErrorIs "execution reverted") (.seq .unpack (.ite .unpackOk (.setVmError .cause) .skip)) .skip) = false := by decide
+-- … and for it the empty reason makes the failed call look successful
+example : (handBack (fun _ => false)
+    (.seq (.ite (.vmErrorIs "execution reverted") (.seq .unpack (.ite .unpackOk (.setVmError .cause) .skip)) .skip) .retResp)
+    (.reverted (.errorString ""))).1 = some ⟨"", .errorString ""⟩ := by decide
+end Round5Examples
 
 example : (SubStep.mk [fun (n : Nat) => n + 1, fun n => n * 2] (some 1)).ok = false := rfl
 example : (SubStep.mk [fun (n : Nat) => n + 1, fun n => n * 2] (some 1)).after 5 = 6 := rfl
